@@ -57,6 +57,10 @@ func c16(r *core.Run) {
 	if ro := resolveMuxRolesFor(r, "G2"); ro != nil {
 		c06DefaultGroupOnlyWithoutGroup(r, "G2", ro)
 	}
+	r.Rule("G3", "requests carry their group (shared with C01.F2 / C02.W5): the group a Resource / Request reports is the routed Match.Group, every enqueue is keyed by it, and no resource is built from a routed handler without its group member", 5)
+	if sa := resolveSvc(r, "G3"); sa.ok {
+		c01GroupArg(r, "G3", sa, r.P.FuncsOfPkg(""))
+	}
 	r.Rule("L3", "no close racing with a delivery (shared with C15.L2): the channel a query-event subscription delivers into is closed, if at all, only after that subscription was removed synchronously - Drain returns before the connection's read loop has stopped sending into the channel, so a close after Drain races with that send (race detector) and can panic", 1)
 	c15CloseAfterUnsubscribe(r, "L3")
 	r.Rule("H2", "hand-over from serve to the producers (shared with C03.S5): serve initialises the queue state without the mutex and then publishes the started state with an atomic store; enqueue (With, WithResource, WithGroup, requests) touches that state only after an atomic load has seen started - that load/store pair is the only thing ordering serve's unlocked writes before a producer's first access", 1)
